@@ -167,7 +167,7 @@ def run(check, repo: Repo) -> None:
     check.decide(not late and bool(resets), "C05-R3", "from_file(dset=…): learned scan positions are restored AFTER the nominal positions are (re)initialised", "",
                  tmod.line(fcfg.nodes[restores[0]].stmt) if restores else tmod.line(ff),
                  fail_detail=f"_set_initial_scan_positions_px at line(s) {[fcfg.nodes[r].lineno for r in late]} runs after the learned positions were restored and "
-                             f"overwrites them with the nominal raster")
+                             f"overwrites them with the nominal raster", definite=bool(late))        # a reset reachable from a restore: a CFG fact
     dres = [("metadata[" + repr(n.stmt.value.slice.value) + "]") if isinstance(n.stmt.value, ast.Subscript) and is_md(n.stmt.value.value) and isinstance(n.stmt.value.slice, ast.Constant)
             else unparse(n.stmt.value)
             for n in fcfg.nodes if n.kind == "stmt" and isinstance(n.stmt, ast.Assign) and unparse(n.stmt.targets[0]) == "dset.descan_shifts.data"]
@@ -190,9 +190,26 @@ def run(check, repo: Repo) -> None:
     # a `dset is not None` test that merely guards the attach statement is reached FROM the real sources; it is not one itself
     sources = [(sid, lb) for sid, lb in sources if not any(sid in fcfg.reachable_from(o) for o, _ in sources if o != sid)]
     check.floor("from_file: ways of obtaining a dataset", len(sources), 2)
+    # three-valued: a call that hands the dataset to a function this analysis does not know (a helper that is not in the recorded tables and could not be inlined)
+    # may perform the restore — then nothing is claimed
+    from ..core.alpha import pinned_table
+    known_fns = {k.split(":")[-1].split(".")[-1] for k in pinned_table() if not k.startswith("__")}
+    for c_ in calls_in(ff):
+        nm_ = (call_name(c_) or "").split(".")[-1]
+        if nm_ and nm_ not in known_fns and nm_.startswith("_") and any(isinstance(a_, ast.Name) and a_.id in ("dset", "ptycho") for a_ in list(c_.args) + [k_.value for k_ in c_.keywords]):
+            raise AnalysisError(f"from_file: the dataset is handed to `{call_name(c_)}`, which is not a recorded function — whether it restores the learned state is not decided")
+    for n_ in ast.walk(ff):
+        if isinstance(n_, ast.Assign) and isinstance(n_.targets[0], ast.Attribute) and n_.targets[0].attr == "data" and not isinstance(n_.targets[0].value, (ast.Attribute, ast.Name)):
+            raise AnalysisError(f"from_file: `{unparse(n_)[:60]}` writes the `.data` of a dynamically selected parameter — which learned state it restores is not decided")
     for sid, label in sources:
-        ok = all(fcfg.all_paths_pass_through(sid, a, set(restores) | set(nothing)) for a in attach)
-        check.decide(ok, "C05-R3", f"from_file: a dataset obtained through {label} receives the persisted learned scan positions before it is attached", "", tmod.line(fcfg.nodes[sid].stmt)
+        # (the restore may come before or after the attach statement — into `dset` or into `ptycho.dset`; what matters is that no normal return is reached without it)
+        # from a source the dataset is known to be present: the `dset is None` side of later tests is infeasible (the CFG is path-insensitive) and counts as passed
+        infeasible = [n.id for n in fcfg.nodes if n.kind == "branch" and ((not n.polarity and unparse(fcfg.nodes[n.test].expr) == "dset is not None")
+                                                                            or (n.polarity and unparse(fcfg.nodes[n.test].expr) == "dset is None"))
+                      and n.id in fcfg.reachable_from(sid) and n.id != sid]
+        any_restore = [n.id for n in fcfg.nodes if n.kind == "stmt" and isinstance(n.stmt, ast.Assign) and unparse(n.stmt.targets[0]).endswith("scan_positions_px.data")]
+        ok = fcfg.all_paths_pass_through(sid, fcfg.exit, set(any_restore) | set(nothing) | set(infeasible))
+        check.decide(ok, "C05-R3", f"from_file: a dataset obtained through {label} receives the persisted learned scan positions on every path to the return", "", tmod.line(fcfg.nodes[sid].stmt)
                      if fcfg.nodes[sid].stmt is not None else tmod.line(ff), definite=True,
                      fail_detail=f"a path from {label} reaches `ptycho.dset = dset` without `dset.scan_positions_px.data = metadata['learned_scan_positions_px']`: a reconstruction "
                                  f"saved without raw data comes back on the nominal raster — the learned positions (and descan shifts) that save() persisted are dropped, and the "
